@@ -15,6 +15,7 @@ import (
 	"math/rand/v2"
 	"net"
 	"net/http"
+	"net/http/httptest"
 	"os"
 	"path/filepath"
 	"strings"
@@ -182,8 +183,9 @@ func TestC17(t *testing.T) {
 	stop()
 	if r.Only < 0 {
 		smoke(t, r, dir)
+		serverOverTime(t, r, dir)
 	}
-	r.Require("uploads_checked", "failed_uploads", "retries_after_failure", "idle_periods_checked", "cancellations_checked", "uploads_with_write_during_window", "timelines", "suppressed_uploads_without_change", "uploads_hanging_past_the_limit", "timelines_on_reopened_database", "lone_activations", "uploads_racing_a_write", "backups_over_an_unreadable_file", "reads_of_the_file_during_saves", "failed_writes_in_timelines", "lone_version_deletions")
+	r.Require("servers_followed_over_time", "uploads_checked", "failed_uploads", "retries_after_failure", "idle_periods_checked", "cancellations_checked", "uploads_with_write_during_window", "timelines", "suppressed_uploads_without_change", "uploads_hanging_past_the_limit", "timelines_on_reopened_database", "lone_activations", "uploads_racing_a_write", "backups_over_an_unreadable_file", "reads_of_the_file_during_saves", "failed_writes_in_timelines", "lone_version_deletions")
 	r.Rule("seeded timelines of ~20 events over virtual hours: sleep d in {0,1s,30s,59s,60s,61s,5min,1h}, bursts of 1-3 real database writes (put/activate/delete), endpoint mode switches (ok / 403 not retryable / 500 retryable / hold for d with a write landing inside the held upload), then a quiet tail, an idle hour and cancellation at a random point of the minute cycle. Distinct = (endpoint mode at upload, writes during window?, outcome) and the smoke case through server.New")
 }
 
@@ -801,5 +803,138 @@ func completeFileAtAllTimes(t *testing.T, r *evid.Run, dir string) {
 		r.Eval(1)
 		r.Count("reads_of_the_file_during_saves", int(reads.Load()))
 		r.Distinct(fmt.Sprintf("complete file at all times symlink=%t", symlinked))
+	}
+}
+
+// rotatingS3 is a loopback S3 endpoint that accepts a PutObject only when it carries a session token that is
+// valid at that moment (as S3 does for temporary credentials), and closes every connection after the reply (an
+// idle keep-alive connection's reader would keep the virtual clock from advancing).
+type rotatingS3 struct {
+	mu       sync.Mutex
+	valid    map[string]bool
+	objects  [][]byte
+	rejected int
+}
+
+func (b *rotatingS3) ServeHTTP(w http.ResponseWriter, req *http.Request) {
+	body, err := io.ReadAll(req.Body)
+	w.Header().Set("Connection", "close")
+	if err != nil || req.Method != http.MethodPut {
+		http.Error(w, "bad request", http.StatusBadRequest)
+		return
+	}
+	tok := req.Header.Get("X-Amz-Security-Token")
+	b.mu.Lock()
+	defer b.mu.Unlock()
+	if !b.valid[tok] {
+		b.rejected++
+		w.Header().Set("Content-Type", "application/xml")
+		w.WriteHeader(http.StatusBadRequest)
+		io.WriteString(w, `<?xml version="1.0" encoding="UTF-8"?><Error><Code>ExpiredToken</Code><Message>The provided token has expired.</Message><RequestId>verif</RequestId></Error>`)
+		return
+	}
+	b.objects = append(b.objects, body)
+	w.Header().Set("ETag", `"x"`)
+	w.WriteHeader(http.StatusOK)
+}
+
+func (b *rotatingS3) set(tok string, ok bool) { b.mu.Lock(); b.valid[tok] = ok; b.mu.Unlock() }
+func (b *rotatingS3) state() ([][]byte, int) {
+	b.mu.Lock()
+	defer b.mu.Unlock()
+	return append([][]byte(nil), b.objects...), b.rejected
+}
+
+// serverOverTime: the server as a program creates it (server.New, ambient AWS configuration), followed for
+// virtual minutes: it lives on a host whose credentials are temporary and rotate (a credential_process, as an
+// instance role or SSO gives them), it is written to well after start-up, and its own context stays alive
+// throughout. Some minutes after the last write the newest object in the bucket is the database file.
+func serverOverTime(t *testing.T, r *evid.Run, dir string) {
+	if _, err := os.Stat("/bin/cat"); err != nil {
+		r.Count("servers_followed_over_time", 1)
+		r.Extra("server_over_time_note", "skipped: no /bin/cat for the credential_process")
+		return
+	}
+	for ci, writeAt := range []time.Duration{45 * time.Second, 150 * time.Second, 4 * time.Minute} {
+		s3f := &rotatingS3{valid: map[string]bool{}}
+		hs := httptest.NewServer(s3f) // outside the bubble: real loopback I/O, during which virtual time stands still
+		cdir := filepath.Join(dir, fmt.Sprintf("overtime%d", ci))
+		os.MkdirAll(cdir, 0o700)
+		credFile := filepath.Join(cdir, "current-credentials.json")
+		writeCreds := func(token string, expires time.Time) {
+			js := fmt.Sprintf(`{"Version":1,"AccessKeyId":"ASIAVERIFVERIFVERIF0","SecretAccessKey":"verifverifverifverifverifverifverifverif","SessionToken":%q,"Expiration":%q}`, token, expires.UTC().Format(time.RFC3339))
+			os.WriteFile(credFile+".new", []byte(js), 0o600)
+			os.Rename(credFile+".new", credFile)
+		}
+		awsConfig := filepath.Join(cdir, "aws-config")
+		os.WriteFile(awsConfig, []byte("[default]\nregion = us-east-1\ncredential_process = /bin/cat "+credFile+"\n"), 0o600)
+		for k, v := range map[string]string{"AWS_ACCESS_KEY_ID": "", "AWS_SECRET_ACCESS_KEY": "", "AWS_SESSION_TOKEN": "", "AWS_PROFILE": "", "AWS_WEB_IDENTITY_TOKEN_FILE": "", "AWS_ROLE_ARN": "",
+			"AWS_CONTAINER_CREDENTIALS_FULL_URI": "", "AWS_CONTAINER_CREDENTIALS_RELATIVE_URI": "", "AWS_CONFIG_FILE": awsConfig, "AWS_SHARED_CREDENTIALS_FILE": os.DevNull,
+			"AWS_EC2_METADATA_DISABLED": "true", "AWS_ENDPOINT_URL_S3": hs.URL, "AWS_ENDPOINT_URL": hs.URL, "AWS_REQUEST_CHECKSUM_CALCULATION": "when_required", "NO_PROXY": "*"} {
+			t.Setenv(k, v)
+		}
+		path := filepath.Join(cdir, "database")
+		kdb, err := realdb.Open(path, realdb.DummyKey("overtime"))
+		if err != nil {
+			t.Fatal(err)
+		}
+		kdb.Put(realdb.Super(), "alpha", []byte("one"))
+		synctest.Test(t, func(t *testing.T) {
+			start := time.Now()
+			at := func(off time.Duration) { time.Sleep(time.Until(start.Add(off))) }
+			writeCreds("session-token-1", start.Add(2*time.Minute))
+			s3f.set("session-token-1", true)
+			ctx, cancel := context.WithCancel(context.Background())
+			defer func() {
+				cancel()
+				time.Sleep(time.Second) // let the backup task see the cancellation and leave the bubble
+			}()
+			if _, err := server.New(ctx, server.Config{DB: kdb, Mux: http.NewServeMux(), BackupBucket: "bucket", BackupBucketRegion: "us-east-1"}); err != nil {
+				r.Extra("server_over_time_note", "server.New could not be configured offline: "+err.Error())
+				return
+			}
+			at(5 * time.Second)
+			if objs, _ := s3f.state(); len(objs) != 1 {
+				r.Inconclusive(fmt.Sprintf("server over time %d: %d start-up uploads reached the loopback endpoint", ci, len(objs)))
+				return
+			}
+			wrote := false
+			write := func() {
+				if !wrote {
+					kdb.Put(realdb.Super(), "beta", []byte("two"))
+					wrote = true
+				}
+			}
+			if writeAt < 90*time.Second {
+				at(writeAt)
+				write()
+			}
+			at(90 * time.Second) // the host rotates its temporary credentials ...
+			writeCreds("session-token-2", start.Add(time.Hour))
+			s3f.set("session-token-2", true)
+			at(2 * time.Minute) // ... and the first token reaches its stated expiry
+			s3f.set("session-token-1", false)
+			if !wrote {
+				at(writeAt)
+				write()
+			}
+			at(writeAt + 6*time.Minute)
+			r.Eval(1)
+			r.Count("servers_followed_over_time", 1)
+			r.Distinct(fmt.Sprintf("server followed over time, written at %v", writeAt))
+			cur, _ := os.ReadFile(path)
+			objs, rejected := s3f.state()
+			if ctx.Err() != nil {
+				t.Fatal("harness: the server's context ended")
+			}
+			if len(objs) == 0 || !bytes.Equal(objs[len(objs)-1], cur) {
+				last := -1
+				if len(objs) > 0 {
+					last = len(objs[len(objs)-1])
+				}
+				r.Violation("no-backup-of-the-last-write", -1, fmt.Sprintf("a server created by server.New with a backup bucket (its context alive throughout, temporary credentials rotated by the host at 1:30, the old token expiring at 2:00) was written at %v; six minutes later the bucket holds %d object(s), the newest of %d bytes, and the database file has %d bytes (%d uploads were refused as expired)", writeAt, len(objs), last, len(cur), rejected), nil)
+			}
+		})
+		hs.Close()
 	}
 }
